@@ -287,6 +287,7 @@ class Scope:
         self.must_pure = False
         self.loop_depth = 0
         self.nstmts = 0
+        self.body_started = False  # once statements exist, new locals must not shadow globals
 
 
 class Gen:
@@ -871,7 +872,7 @@ class Gen:
     def local_name(self, sc):
         r = self.r
         k = r.below(100)
-        if k < 12 and not sc.is_main:
+        if k < 12 and not sc.is_main and not sc.body_started:
             # shadow a global name (not in main: its prologue initialises every global by name)
             gl = list(self.gvals) + self.gvars + list(self.arrays) + [p.name for p in self.procs]
             gl = [n for n in gl if n not in (self.put, self.get, self.exit)]
@@ -1027,6 +1028,7 @@ class Gen:
             n0 = p.formals[0][1]
             sc.ranged[n0] = (0, 3)
         nst = 1 + r.below(max(1, int(4 * self.size)))
+        sc.body_started = True
         pre = [self.gen_stmt(sc, 2, None) for _ in range(nst)]
         if not p.pure and r.chance(3, 5):
             # make formals, locals and array formals observable
